@@ -872,6 +872,31 @@ func init() {
 		return iface{t: types.NewPointer(vt), v: &cell}
 	}
 
+	// ---- context.WithTimeout / WithDeadline: the real cancel machinery (context.WithCancel, interpreted)
+	// plus a side table that remembers the timeout; timers never fire inside the engine.
+	natives["context.WithTimeout"] = func(fr *frame, args []value) value {
+		ctxPkg := fr.i.prog.ImportedPackage("context")
+		res := call(fr.i, fr, 0, ctxPkg.Func("WithCancel"), []value{args[0]}).(tuple)
+		c := res[0].(iface)
+		if p, ok := c.v.(*value); ok {
+			ctxTimeouts[p] = args[1]
+			journalFn(func() { delete(ctxTimeouts, p) })
+		}
+		if px != nil {
+			px.events = append(px.events, "context.WithTimeout")
+		}
+		return res
+	}
+	reg([]string{"(*time.Timer).Stop", "(*time.Timer).Reset"}, func(fr *frame, args []value) value { return true })
+	natives["time.AfterFunc"] = func(fr *frame, args []value) value {
+		if px != nil {
+			px.events = append(px.events, "time.AfterFunc")
+		}
+		cell := zero(mustDeref(fr.fn.Signature.Results().At(0).Type()))
+		return &cell
+	}
+	natives["time.NewTimer"] = natives["time.AfterFunc"]
+
 	// ---- errors
 	natives["errors.Is"] = func(fr *frame, args []value) value { return errorsIs(fr, args[0].(iface), args[1].(iface), 0) }
 	natives["errors.As"] = func(fr *frame, args []value) value { return errorsAs(fr, args[0].(iface), args[1].(iface), 0) }
@@ -884,6 +909,7 @@ func init() {
 }
 
 var onceDone = map[*value]bool{}
+var ctxTimeouts = map[*value]value{}
 
 func emptyIface() types.Type { return types.NewInterfaceType(nil, nil) }
 
